@@ -1525,7 +1525,10 @@ class Quaternion(np.ndarray):
 
         """
         _assert_numerical_iterable(q, 'q')
-        qw, qx, qy, qz = q
+        if isinstance(q, Quaternion):
+            qw, qx, qy, qz = q.w, q.x, q.y, q.z
+        else:
+            qw, qx, qy, qz = q
         pq = np.array([
             self.w*qw - self.x*qx - self.y*qy - self.z*qz,
             self.w*qx + self.x*qw + self.y*qz - self.z*qy,
